@@ -37,26 +37,34 @@ TB = [
     "byte string is an input of the model (the check obtains it by calling PIL.Image.open itself)",
     "hashlib.sha1 is not modelled: the digest is a parameter H of the model; the runner instantiates it with the identity "
     "(same digest iff same bytes), so the correspondence also checks that the implementation deduplicates exactly by byte equality",
-    "model/Image.v fl64 (round to nearest even, 53-bit significand, unbounded exponent) stands for CPython binary64 "
-    "arithmetic; validated bit-exactly on random quotients and products in every run",
+    "model/Image.v fl64 (round to nearest even, 53-bit significand, unbounded exponent) stands for one CPython binary64 "
+    "operation (int/int true division, float*float, float/float, float(int)); its error bound, exactness on integers up to "
+    "2^53 and extensionality are proved (C15_fl64_premises); that CPython computes this function is validated bit-exactly on "
+    "random quotients and products in every run, not proved",
     "tx/tx_c15.py (translator: the ext_map dict literal of Image.ext by AST, image_content_types, default_content_types, "
-    "the ImagePart rows of content_type_to_part_class_map by import)",
-    "PackUri.idx of model/PackUri.v (C19) is reused for partname.idx; dict/sorted/enumerate/%d formatting are transcribed",
+    "the ImagePart rows of PartFactory.part_type_for by import)",
+    "PackUri.idx / PackUri.ext of model/PackUri.v (C19) are reused for partname.idx and partname.ext; dict, sorted, enumerate, "
+    "%d formatting and Python truthiness of None/0 are transcribed",
     "save followed by load is taken to return every reachable part with the same name, bytes and content type (that is C01); "
     "the class of a loaded part is chosen from its content type (PartFactory), as modelled by reload_part",
+    "blobs longer than 12000 bytes (corpus decks only) travel to the model as a stand-in (length + SHA-256 computed by the "
+    "harness): the model only compares blobs for equality and hands them back",
 ]
 ASSUME = [
-    "int(914400 * px / dpi) is modelled as truncation of the exact quotient; for 1 <= dpi <= 2048 and px < 2^32 the binary64 "
-    "quotient cannot cross an integer (distance to the next integer >= 1/2048, rounding error < 2^-17); validated by the "
-    "correspondence over the whole dpi range",
-    "C15_scale and C15_scale_refuted-style bounds are stated for any rounding operator fl with relative error at most 2^-53 "
-    "(hypothesis of the theorem); overflow/underflow of binary64 is outside (EMU values are far inside the normal range)",
-    "C15_distinct assumes H separates the two blobs (SHA-1 collision freedom on the inputs used)",
-    "the model store lists reachable parts in load order followed by creation order; the implementation iterates in "
-    "depth-first relationship order; the two agree on _find_by_sha1 whenever no two indexed parts hold the same bytes "
-    "(C15_once shows get_or_add preserves that), and on packages loaded with duplicate media the first of each class is stable",
-    "relationship collections are abstracted to (number of rIdN, image target) pairs; removal of slides, shapes or "
-    "relationships is not part of the histories",
+    "int(914400 * px / dpi) is modelled as truncation of the exact quotient; C15_native_float proves the binary64 quotient "
+    "(fl64) truncates to the same integer for 1 <= dpi <= 2048 and 914400*px < 2^40 (px <= 1202440); larger images are outside",
+    "C15_scale holds for any rounding operator with relative error <= 2^-53 that is exact on integers up to 2^53 and "
+    "C15_scale_fl64 for fl64; arguments and native sizes are assumed below 2^53 in magnitude (EMU values are); overflow and "
+    "subnormals of binary64 are outside",
+    "C15_distinct / C15_bytes assume H separates the blobs involved (SHA-1 collision freedom on the inputs used)",
+    "the model store lists reachable parts in the order _find_by_sha1 meets them at load time followed by creation order; "
+    "the implementation iterates in depth-first relationship order; the two agree on _find_by_sha1 whenever no two indexed "
+    "parts hold the same bytes (C15_once: get_or_add preserves that), and on packages loaded with duplicate media the first "
+    "of each class stays first because new relationships only ever target it",
+    "relationship collections are abstracted to (number n of rIdn, image target) pairs; removal of slides, shapes or "
+    "relationships is not part of the histories (an unreachable image part is neither indexed nor saved)",
+    "the oracle reads DPI from PNG pHYs, JFIF APP0, BMP header and TIFF tags 282/283/296 only; for the generated files that is "
+    "all the resolution information there is (no EXIF); sizes of corpus images are compared with the model only",
 ]
 
 EMU = 914400
@@ -68,6 +76,9 @@ def _pixels(w, h, seed):
     return bytes(r.randrange(256) for _ in range(w * h * 3))
 
 
+EMF_ICONS = ["generic-icon.emf", "docx-icon.emf", "pptx-icon.emf", "xlsx-icon.emf"]
+
+
 def make_blob(spec):
     """spec: dict(fmt, w, h, seed, dpi=None|[x,y], patch=None|str, mode)"""
     from PIL import Image as PI
@@ -75,6 +86,14 @@ def make_blob(spec):
     fmt = spec["fmt"]
     if fmt == "RAW":
         return bytes(spec["bytes"])
+    if fmt == "EMF":  # the enhanced metafiles shipped with python-pptx, made distinct by trailing bytes
+        with open(os.path.join(REPO, "src", "pptx", "templates", EMF_ICONS[spec["seed"] % len(EMF_ICONS)]), "rb") as f:
+            return f.read() + bytes([spec["seed"] % 251]) * (spec["seed"] % 3)
+    if fmt == "WMF":  # a placeable Windows metafile header (all Pillow needs to identify it)
+        w, h = spec["w"], spec["h"]
+        return (b"\xd7\xcd\xc6\x9a\x00\x00" + struct.pack("<hhhhH", 0, 0, w * 20, h * 20, 1440) + b"\x00" * 4 + b"\x00\x00"
+                + b"\x01\x00\x09\x00\x00\x03" + struct.pack("<I", 30 + spec["seed"] % 7) + b"\x00" * 12
+                + bytes([spec["seed"] % 256]) * 8)
     w, h = spec["w"], spec["h"]
     im = PI.frombytes("RGB", (w, h), _pixels(w, h, spec["seed"]))
     if fmt == "GIF":
@@ -143,11 +162,12 @@ def dv(x):
     return "q%d/%d" % (n, d)
 
 
-def meta_text(fmt, size, dpi):
+def meta_text(fmt, size, dpi, xres=True):
+    """xres: tag 282 (XResolution) is among the tags Pillow read (tag_v2)"""
     f = fmt if fmt is not None else "~"
     if isinstance(dpi, tuple) and len(dpi) == 2:
-        return "M;%s;%d;%d;t;%s;%s" % (f, size[0], size[1], dv(dpi[0]), dv(dpi[1]))
-    return "M;%s;%d;%d;n" % (f, size[0], size[1])
+        return "M;%s;%d;%d;%d;t;%s;%s" % (f, size[0], size[1], xres, dv(dpi[0]), dv(dpi[1]))
+    return "M;%s;%d;%d;%d;n" % (f, size[0], size[1], xres)
 
 
 def pil_meta(blob):
@@ -158,7 +178,7 @@ def pil_meta(blob):
         with warnings.catch_warnings():
             warnings.simplefilter("ignore")
             im = PI.open(io.BytesIO(blob))
-            return meta_text(im.format, im.size, im.info.get("dpi"))
+            return meta_text(im.format, im.size, im.info.get("dpi"), 282 in getattr(im, "tag_v2", {}))
     except Exception:  # noqa
         return "U"
 
@@ -493,7 +513,7 @@ def oracle_unit(ck, case, out):
 
 # ============================================================================ histories
 FMTS = ["PNG", "JPEG", "GIF", "BMP", "TIFF"]
-EXT_OF_FMT = {"PNG": "png", "JPEG": "jpg", "GIF": "gif", "BMP": "bmp", "TIFF": "tiff"}
+EXT_OF_FMT = {"PNG": "png", "JPEG": "jpg", "GIF": "gif", "BMP": "bmp", "TIFF": "tiff", "EMF": "emf", "WMF": "wmf"}
 WRONG_EXT = ["jpg", "png", "gif", "bmp", "tif", "dat", "JPG", "jpeg", ""]
 SIZES = [(1, 1), (2, 1), (1, 3), (3, 2), (4, 4), (5, 7), (8, 6), (16, 9), (13, 31), (32, 24), (48, 64), (64, 48)]
 DPIS = [None, None, [72, 72], [72.009, 72.009], [0, 0], [300, 300], [96, 96], [300, 150], [150.5, 72], [100000, 3],
@@ -501,6 +521,9 @@ DPIS = [None, None, [72, 72], [72.009, 72.009], [0, 0], [300, 300], [96, 96], [3
 
 
 def gen_image_spec(rng, seed):
+    if rng.random() < 0.06:
+        return {"fmt": rng.choice(["EMF", "WMF"]), "w": rng.randint(1, 40), "h": rng.randint(1, 40), "seed": seed,
+                "dpi": None, "patch": None}
     fmt = rng.choice(FMTS)
     w, h = rng.choice(SIZES) if rng.random() < 0.8 else (rng.randint(1, 64), rng.randint(1, 48))
     spec = {"fmt": fmt, "w": w, "h": h, "seed": seed, "dpi": None, "patch": None}
@@ -571,7 +594,7 @@ def gen_history(rng, tier, hid):
             img = rng.randrange(len(specs)) if rng.random() < 0.7 else 0
             via = rng.choice(["path", "stream", "stream", "misnamed"])
             u = rng.random()
-            good = specs[img]["fmt"] in FMTS and specs[img].get("patch") != "trunc"
+            good = specs[img]["fmt"] in FMTS + ["EMF", "WMF"] and specs[img].get("patch") != "trunc"
             if u < 0.12 and any(ph_free) and good:
                 s = rng.choice([i for i, f in enumerate(ph_free) if f])
                 ops.append(["i", s, img, "H", via, None, None])
@@ -802,7 +825,7 @@ def surrogate(b):
         return b
     import hashlib
 
-    return b"\x00big:%d:" % len(b) + hashlib.sha256(b).digest()
+    return b[:64] + b"\x00big:%d:" % len(b) + hashlib.sha256(b).digest()  # the header bytes Image.ext looks at stay
 
 
 def model_case(hist, deck, initial, view_sizes):
